@@ -11,7 +11,7 @@ STRENGTH = {
     'C15_m9': 'first run: fail-closed translator only; PDHG with array-valued dual steps, one of them exactly 0 (NaN residual: the solver must run on), quick tier now draws 6 variants',
     'C13_m11': 'first run: fail-closed translator only; caller iterate stored in single precision with double-precision data, gap bounds after k updates evaluated on the caller array',
     'C14_m11': 'first run: fail-closed translator only; PDHG with G and ONE of tau / sigma supplied (the other defaulted from the stacked operator), G of norm 2-4',
-    'C16_m11': 'C16 reports it through the dependency tie on linop.py only (TV recon with non-contiguous maps not generated); C03 exhibits the input (Vstack of non-contiguous block outputs)',
+    'C16_m11': 'first run: dependency tie on linop.py only (C03 exhibits a Vstack of non-contiguous block outputs); TotalVariationRecon with the maps handed over as a channel-first VIEW of channel-last storage',
     'C01_m9': 'reported through the interpw translator tie; it exposed the genuine defect F25 (width / param truncated for integer-typed coord), repaired in 13e2703 -- the patch applies to 9d35b3e only; integer-typed coordinates are now generated in C07 and in the C01-C04 leaf generator',
     'C17_m7': 'first run: fail-closed translator only; nearly dead first (phase-reference) channel: coil 0 scaled to the precision of the k-space dtype (generator share 15 % + two corpus entries)',
     'C20_m7': 'reported by the existing oracle; since round 7 also by the float correspondence of model/Spokes.v (spoke sets designed twice)',
